@@ -126,8 +126,11 @@ private:
                       "type of split object is incorrect");
         __TBB_ASSERT(r.is_divisible(), "can't split not divisible range");
 
+        // An indivisible dimension is never preferred: the products below are inexact once
+        // size*grainsize >= 2^53 and may then compare as a tie.
         auto my_it = std::max_element(my_dims.begin(), my_dims.end(), [](const dim_range_type& first, const dim_range_type& second) {
-            return (first.size() * double(second.grainsize()) < second.size() * double(first.grainsize()));
+            return second.is_divisible() &&
+                   (!first.is_divisible() || first.size() * double(second.grainsize()) < second.size() * double(first.grainsize()));
         });
 
         auto r_it = r.my_dims.begin() + (my_it - my_dims.begin());
